@@ -554,7 +554,7 @@ impl Property for C07 {
     const ID: &'static str = "C07";
     const RULE: &'static str = "proptest-generated requests: method (standard or extension token) x URL from components (Unicode path segments, query pairs, fragment) x builder operations \
 (header / header_append / try_*, basic_auth, bearer_auth, param, params with arbitrary strings) x body kind {none, text, bytes, file, json, json_streaming, form, multipart, custom program of write / write_all / flush calls incl. \
-zero-length and > 8 KiB writes}; the recorded bytes are parsed by the strict reference parser and compared with the model (method, decoded target, query pairs in order, header multiset, body bytes, framing). \
+zero-length and > 8 KiB writes, failing sources} x transport accepting everything or at most 1..16000 bytes per write; the recorded bytes are parsed by the strict reference parser and compared with the model (method, decoded target, query pairs in order, header multiset, body bytes, framing). \
 non-trivial = a body or >= 1 param or a custom program with >= 2 writes";
 
     fn assumptions() -> Vec<String> {
